@@ -15,6 +15,9 @@ import Rdm.Lemmas.HeurList
 import Rdm.Lemmas.HeurLinks
 import Rdm.Lemmas.HeurSatisf
 import Rdm.Lemmas.HeurH13
+import Rdm.Lemmas.E2EMethods
+import Rdm.Lemmas.E2EMethodsLevels
+import Rdm.Lemmas.E2EMethodsExamples
 set_option linter.unusedSectionVars false
 set_option linter.unusedSimpArgs false
 namespace Rdm.Props.C13
@@ -396,6 +399,176 @@ example : ∃ out, satisfactionCore (α := Rat) ⟨[⟨"b", [("g", 2)]⟩], [⟨
     Spec.C13.check [⟨"a", [("g", 1)]⟩] [⟨"g", "gain", none⟩, ⟨"g", "cost", none⟩] []
       [⟨"a", [("g", 1)]⟩, ⟨"b", [("g", 2)]⟩] out = false :=
   ⟨[⟨"a", ⟨0, [("g", 1), ("g", 2)]⟩, []⟩], by decide +kernel, by decide +kernel⟩
+
+/-! ## end to end: whole requests (`decideWith` / `Rdm.decide`, Model/Decide.lean)
+
+  Whatever biases ran before — every request, every bias list, every stream function, no bounds —, the answer
+  of the satisfaction heuristic is `Satisfaction.Evaluate` on the state that reached it (`resp.final`): search
+  order with the REQUEST's current choice first, drawn on the stream `g seed` of the REQUEST's `randomSeed` iff
+  the REQUEST says so, levels generated by the REQUEST's levels function from the FINAL state, fallback thresholds
+  = worst range ends over all known alternatives of the FINAL state.  `e2emSatEntries resp.result` reads the
+  response back as the list `Evaluate` returned (what `Spec.C13.check` is evaluated on).
+  Helper lemmas: Rdm/Lemmas/E2EMethods*.lean. -/
+
+/-- **the configuration in force**: no bias exchanges the method nor touches the levels function, `randomSeed`,
+    `currentChoice` or `randomAlternativesOrdering`, and of the levels parameters only the per-criterion entries
+    of explicit thresholds change (same coefficient numbers, same number of explicit levels: `e2emLvTag`) -/
+theorem decideWith_satisfaction_parameters (exp : α → α) (aspOrder : List (WCrit α) → List (WCrit α))
+    (req : Request α) (g : Int → Draws α) (resp : Response α) (h : decideWith exp aspOrder req g = .ok resp)
+    (fn : String) (seed : Int) (cur : String) (rnd : Bool) :
+    (∀ lv₀, req.mp = some (.satisf fn lv₀ seed cur rnd) →
+      ∃ lv, resp.final.mp = .satisf fn lv seed cur rnd ∧ e2emLvTag lv = e2emLvTag lv₀) ∧
+    (∀ lv, resp.final.mp = .satisf fn lv seed cur rnd →
+      ∃ lv₀, req.mp = some (.satisf fn lv₀ seed cur rnd) ∧ e2emLvTag lv = e2emLvTag lv₀) := by
+  constructor
+  · intro lv₀ hmp
+    obtain ⟨lv, _, hfin, hl, _⟩ := e2em_decideWith_satisf h hmp
+    exact ⟨lv, hfin, hl⟩
+  · intro lv hfin
+    exact (e2em_decideWith_satisf_of_final h hfin).1
+
+/-- **the response IS the level loop on the final state** (any number type): for a request with satisfaction
+    parameters, if `MakeDecision` answers then the levels are `satisfactionLevels` of the final state (C14), the
+    search order is `GetAlternativesSearchOrder` of the final state (current choice of the request first,
+    looked up among ALL known alternatives of the final state), and `result` is `satisfactionCore` on these —
+    so every per-stage theorem above applies to `e2emSatEntries resp.result`.  Every level has a threshold for
+    every criterion of the final state; for distinct `choseToMake` the search order has distinct ids and
+    consists of `choseToMake` plus the current choice when it is given and not among them. -/
+theorem decideWith_satisfaction_is_level_loop (exp : α → α) (aspOrder : List (WCrit α) → List (WCrit α))
+    (req : Request α) (g : Int → Draws α) (resp : Response α) (fn : String) (lv₀ : Levels α) (seed : Int)
+    (cur : String) (rnd : Bool) (h : decideWith exp aspOrder req g = .ok resp)
+    (hmp : req.mp = some (.satisf fn lv₀ seed cur rnd)) :
+    ∃ lv lvl first rest ds',
+      resp.final.mp = .satisf fn lv seed cur rnd ∧ e2emLvTag lv = e2emLvTag lv₀ ∧
+      satisfactionLevels resp.final = .ok lvl ∧
+      searchOrder resp.final cur rnd (g seed) = .ok ((first, rest), ds') ∧
+      satisfactionCore resp.final lvl (first :: rest) = .ok (e2emSatEntries resp.result) ∧
+      resp.result = (e2emSatEntries resp.result).map (Linked.mapEv .sat) ∧
+      (∀ t ∈ lvl, ∀ c ∈ resp.final.crit, (t.get? c.id).isSome = true) ∧
+      (req.chosen.Nodup → ((first :: rest).map (·.id)).Nodup ∧
+        ((first :: rest).map (·.id)).Perm (e2eExpected req.chosen cur)) := by
+  obtain ⟨lv, r, hfin, hl, hr, hres⟩ := e2em_decideWith_satisf h hmp
+  obtain ⟨lvl, hlv, hof, hr'⟩ := e2em_satisf_levels_used hfin hr
+  obtain ⟨first, rest, ds', hso, hcore⟩ := e2em_satisfactionEvaluateWith_ok hfin hr'
+  have hent : e2emSatEntries resp.result = r := by rw [hres, e2emSatEntries_map]
+  obtain ⟨hco, _⟩ := e2em_decideWith_co h
+  refine ⟨lv, lvl, first, rest, ds', hfin, hl, hlv, hso, by rw [hent]; exact hcore, by rw [hent]; exact hres,
+    e2em_levelsOf_complete hof, ?_⟩
+  intro hnd
+  have hp := e2e_searchOrder_ids hso
+  rw [hco] at hp
+  exact ⟨hp.nodup_iff.mpr (e2eExpected_nodup _ _ hnd), hp⟩
+
+/-- **`Spec.C13.check` accepts the response** (over `Rat`), the checker called as the driver op `check-c13`
+    calls it on the state that reached `Evaluate`: search order as `searchOrder` returns it on the final state,
+    criteria and ALL known alternatives of the final state, the levels generated from the final state.
+    The hypotheses of `model_output_passes_spec` are carried through: distinct ids of all known alternatives is
+    now asked of the REQUEST (`knownAlternatives` and `choseToMake` pairwise different — no bias changes the
+    ids); `hcrit`, `hlev`, `hval` are about the final state (criteria ids distinct, no level lists a key twice,
+    every known alternative has every criterion — all three are consequences of `Spec.C07.coherent resp.final`
+    resp. of generated levels, see `decideWith_satisfaction_passes_spec_generated`). -/
+theorem decideWith_satisfaction_passes_spec (exp : Rat → Rat) (aspOrder : List (WCrit Rat) → List (WCrit Rat))
+    (req : Request Rat) (g : Int → Draws Rat) (resp : Response Rat)
+    (fn : String) (lv : Levels Rat) (seed : Int) (cur : String) (rnd : Bool)
+    (h : decideWith exp aspOrder req g = .ok resp) (hfin : resp.final.mp = .satisf fn lv seed cur rnd)
+    (lvl : List (KMap Rat)) (hlv : satisfactionLevels resp.final = .ok lvl)
+    (first : Alt Rat) (rest : List (Alt Rat)) (ds' : Draws Rat)
+    (hso : searchOrder resp.final cur rnd (g seed) = .ok ((first, rest), ds'))
+    (hk : (req.known.map (·.id)).Nodup) (hnd : req.chosen.Nodup)
+    (hcrit : (resp.final.crit.map (·.id)).Nodup)
+    (hlev : ∀ t ∈ lvl, (t.map (·.1)).Nodup)
+    (hval : ∀ a ∈ resp.final.all, ∀ c ∈ resp.final.crit, (a.vals.get? c.id).isSome) :
+    Spec.C13.check (first :: rest) resp.final.crit lvl resp.final.all (e2emSatEntries resp.result) = true := by
+  obtain ⟨_, r, hr, hres⟩ := e2em_decideWith_satisf_of_final h hfin
+  have hent : e2emSatEntries resp.result = r := by rw [hres, e2emSatEntries_map]
+  rw [hent]
+  exact evaluate_output_passes_spec resp.final (g seed) ds' lvl fn lv seed cur rnd first rest r hfin hlv hr hso
+    (e2em_decideWith_all_nodup h hk hnd) hcrit hlev hval
+
+/-- … with GENERATED levels (a coefficient series in the parameters) `hlev` is no hypothesis: generated levels
+    list exactly the criteria of the final state -/
+theorem decideWith_satisfaction_passes_spec_generated (exp : Rat → Rat)
+    (aspOrder : List (WCrit Rat) → List (WCrit Rat)) (req : Request Rat) (g : Int → Draws Rat)
+    (resp : Response Rat) (fn : String) (c mx mn : Rat) (seed : Int) (cur : String) (rnd : Bool)
+    (h : decideWith exp aspOrder req g = .ok resp)
+    (hfin : resp.final.mp = .satisf fn (.coef c mx mn) seed cur rnd)
+    (lvl : List (KMap Rat)) (hlv : satisfactionLevels resp.final = .ok lvl)
+    (first : Alt Rat) (rest : List (Alt Rat)) (ds' : Draws Rat)
+    (hso : searchOrder resp.final cur rnd (g seed) = .ok ((first, rest), ds'))
+    (hk : (req.known.map (·.id)).Nodup) (hnd : req.chosen.Nodup)
+    (hcrit : (resp.final.crit.map (·.id)).Nodup)
+    (hval : ∀ a ∈ resp.final.all, ∀ c ∈ resp.final.crit, (a.vals.get? c.id).isSome) :
+    Spec.C13.check (first :: rest) resp.final.crit lvl resp.final.all (e2emSatEntries resp.result) = true := by
+  refine decideWith_satisfaction_passes_spec exp aspOrder req g resp fn _ seed cur rnd h hfin lvl hlv first rest ds'
+    hso hk hnd hcrit ?_ hval
+  have hof : levelsOf satisfactionSources fn (.coef c mx mn) resp.final = .ok lvl := by
+    unfold satisfactionLevels at hlv
+    rw [hfin] at hlv
+    exact hlv
+  obtain ⟨s, _, _, _, _, hw⟩ := e2em_levelsOf_ok hof
+  rcases e2em_levelsWith_cases_rat hw with ⟨k, c', mx', mn', _, hl, hc⟩ | ⟨_, _, _, hl, _⟩ | ⟨_, _, _, _, _, _, rfl⟩
+  · intro t ht
+    rw [e2em_coefLevels_keys hc t ht]
+    exact hcrit
+  · cases hl
+  · intro t ht; cases ht
+
+/-- **C13 for `Rdm.decide`** (`MakeDecision` with the registered generators read from a seed table) -/
+theorem decide_satisfaction_passes_spec (exp : Rat → Rat) (req : Request Rat) (seeds : Seeds Rat)
+    (resp : Response Rat) (fn : String) (lv : Levels Rat) (seed : Int) (cur : String) (rnd : Bool)
+    (h : Rdm.decide exp req seeds = .ok resp) (hfin : resp.final.mp = .satisf fn lv seed cur rnd)
+    (lvl : List (KMap Rat)) (hlv : satisfactionLevels resp.final = .ok lvl)
+    (first : Alt Rat) (rest : List (Alt Rat)) (ds' : Draws Rat)
+    (hso : searchOrder resp.final cur rnd (genOf seeds seed) = .ok ((first, rest), ds'))
+    (hk : (req.known.map (·.id)).Nodup) (hnd : req.chosen.Nodup)
+    (hcrit : (resp.final.crit.map (·.id)).Nodup)
+    (hlev : ∀ t ∈ lvl, (t.map (·.1)).Nodup)
+    (hval : ∀ a ∈ resp.final.all, ∀ c ∈ resp.final.crit, (a.vals.get? c.id).isSome) :
+    Spec.C13.check (first :: rest) resp.final.crit lvl resp.final.all (e2emSatEntries resp.result) = true :=
+  decideWith_satisfaction_passes_spec exp _ req _ resp fn lv seed cur rnd h hfin lvl hlv first rest ds' hso hk hnd
+    hcrit hlev hval
+
+/-- … in one statement from the request -/
+theorem decide_satisfaction_passes_spec_from_request (exp : Rat → Rat) (req : Request Rat) (seeds : Seeds Rat)
+    (resp : Response Rat) (fn : String) (lv₀ : Levels Rat) (seed : Int) (cur : String) (rnd : Bool)
+    (h : Rdm.decide exp req seeds = .ok resp) (hmp : req.mp = some (.satisf fn lv₀ seed cur rnd))
+    (hk : (req.known.map (·.id)).Nodup) (hnd : req.chosen.Nodup) :
+    ∃ lv lvl first rest ds', resp.final.mp = .satisf fn lv seed cur rnd ∧ e2emLvTag lv = e2emLvTag lv₀ ∧
+      satisfactionLevels resp.final = .ok lvl ∧
+      searchOrder resp.final cur rnd (genOf seeds seed) = .ok ((first, rest), ds') ∧
+      ((resp.final.crit.map (·.id)).Nodup → (∀ t ∈ lvl, (t.map (·.1)).Nodup) →
+        (∀ a ∈ resp.final.all, ∀ c ∈ resp.final.crit, (a.vals.get? c.id).isSome) →
+        Spec.C13.check (first :: rest) resp.final.crit lvl resp.final.all (e2emSatEntries resp.result) = true) := by
+  obtain ⟨lv, lvl, first, rest, ds', hfin, hl, hlv, hso, _⟩ :=
+    decideWith_satisfaction_is_level_loop exp _ req _ resp fn lv₀ seed cur rnd h hmp
+  exact ⟨lv, lvl, first, rest, ds', hfin, hl, hlv, hso, fun hcrit hlev hval =>
+    decide_satisfaction_passes_spec exp req seeds resp fn lv seed cur rnd h hfin lvl hlv first rest ds' hso hk hnd
+      hcrit hlev hval⟩
+
+/-- the hypotheses are satisfiable: a satisfaction request (subtractive series 1, 3/4, 1/2, 1/4; current choice
+    `"d"` known but not in `choseToMake`; a fatigue fired before and rewrote every value of the considered
+    alternatives, so levels and fallback thresholds come from the REWRITTEN ranges) — the model answers,
+    `"c"` and `"b"` are accepted at the last level, `"d"` and `"a"` meet none, and the checker accepts -/
+example : ∃ resp order lvl, Rdm.decide id e2emExSatisf e2eExSeeds = .ok resp ∧
+    order.map (·.id) = ["d", "c", "a", "b"] ∧ lvl.length = 4 ∧
+    (e2emSatEntries resp.result).map (fun e => (e.id, e.ev.idx)) = [("c", 3), ("b", 3), ("d", 4), ("a", 4)] ∧
+    Spec.C13.check order resp.final.crit lvl resp.final.all (e2emSatEntries resp.result) = true := by
+  have h := e2em_eq_ok_getD e2emNoResponse (x := Rdm.decide id e2emExSatisf e2eExSeeds) (by decide +kernel)
+  generalize hresp : e2emGetD e2emNoResponse (Rdm.decide id e2emExSatisf e2eExSeeds) = resp at h
+  obtain ⟨lv, hfin, hl⟩ := (decideWith_satisfaction_parameters id _ _ _ resp h "idealSubtractiveCoefficient" 11 "d"
+    false).1 _ rfl
+  obtain ⟨c, mx, mn, rfl, _⟩ | ⟨_, _, _, h0, _⟩ := e2em_lvTag_cases hl
+  swap
+  · cases h0
+  have hlv := e2em_eq_ok_getD [] (x := satisfactionLevels resp.final) (by subst hresp; decide +kernel)
+  have hso := e2em_eq_ok_getD ((⟨"", []⟩, []), []) (x := searchOrder resp.final "d" false (genOf e2eExSeeds 11))
+    (by subst hresp; decide +kernel)
+  refine ⟨resp, _, _, h, ?_, ?_, ?_, decideWith_satisfaction_passes_spec_generated id _ _ _ resp _ c mx mn 11 "d" false
+    h hfin _ hlv _ _ _ hso (by decide) (by decide) (by subst hresp; decide +kernel)
+    (by subst hresp; decide +kernel)⟩
+  · subst hresp; decide +kernel
+  · subst hresp; decide +kernel
+  · subst hresp; decide +kernel
 
 /-- the constants and names this property depends on were re-read from the working tree on this run
     (none fell back to its pinned value because its declaration could not be located) -/
